@@ -780,3 +780,149 @@ Theorem C02_acceptor_statistics :
   judge_stats spb_ s posts = [] <-> Forall (stat_entry_ok spb_) (combine (s_tabs s) posts).
 Proof. exact judge_stats_nil. Qed.
 Print Assumptions C02_acceptor_statistics.
+
+(* ---- RUN-TIED statements (RunTied.v). The escape clause [esc]/[lesc] of the theorems above is an existential that is not tied to the run: it holds of every table whose maximum hashpower is unset or >= 60 (RunTied.lesc_holds_of_tN), so for such tables those theorems say nothing. The statements below replace it by a fact about the table the call RETURNS: either it has at least 2^59 buckets (false of every execution that fits in memory, decidable on the result), or the specification holds - for any limits, including none ---- *)
+From LC Require Import AcceptModel RunTied.
+Theorem C02_every_normal_mode_operation_refines_the_map_tied :
+  forall (c : config) (hash : N -> N),
+  cfg_ok c ->
+  forall (fapply : fnk -> Z -> bool -> Z * bool) (w : world) (a : nat) (s : tslot)
+  (o : op) (w' : world) (r : out) (m : amap),
+  nothrow c = true ->
+  active s = false ->
+  normal_op o = true ->
+  lgood c hash (tb s) ->
+  rep c (tb s) m ->
+  op_pre c (tb s) o ->
+  step_some c hash fapply w a s o = (w', r) ->
+  tied_step w a s w' \/
+  (exists (t' : table) (m' : amap),
+  w' = put_t w a s t' /\
+  lgood c hash t' /\ lim_same (tb s) t' /\ rep c t' m' /\ op_spec c fapply (tb s) m o r m').
+Proof. exact normal_mode_op_refines_tied. Qed.
+Print Assumptions C02_every_normal_mode_operation_refines_the_map_tied.
+
+Theorem C02_insert_family_tied :
+  forall (c : config) (hash : N -> N),
+  cfg_ok c ->
+  forall (t : table) (k : N) (v : Z) (g : Z -> bool -> option (Z * bool)),
+  nothrow c = true ->
+  lgood c hash t ->
+  forall (t' : table) (r : exn + bool * list rv * (N * N)),
+  uprase_gen c hash false t k v g = (t', r) ->
+  (forall v0 : Z,
+  lholds c t k v0 ->
+  exists b s : N,
+  r = inr (false, log_of g v0 false, (b, s)) /\
+  lgood c hash t' /\
+  lim_same t t' /\
+  bhp (cur t') = bhp (cur t) /\
+  lupd c t t' k (final_of g v0 false) /\
+  (forall vf : Z,
+  final_of g v0 false = Some vf ->
+  exists e : entry, bget (cur t') b s = Some e /\ ekey e = k /\ eval e = vf)) /\
+  ((forall v0 : Z, ~ lholds c t k v0) ->
+  tied_esc t' \/
+  (exists e : exn, r = inl e /\ exn_ok c true t t' e /\ levolves c hash t t') \/
+  (exists b s : N,
+  r = inr (true, log_of g v true, (b, s)) /\
+  lgood c hash t' /\
+  lim_same t t' /\
+  bhp (cur t) <= bhp (cur t') /\
+  lupd c t t' k (final_of g v true) /\
+  (forall vf : Z,
+  final_of g v true = Some vf ->
+  exists e : entry, bget (cur t') b s = Some e /\ ekey e = k /\ eval e = vf))).
+Proof. exact uprase_gen_lgood_tied. Qed.
+Print Assumptions C02_insert_family_tied.
+
+Theorem C02_insert_family_immediate_regime_tied :
+  forall (c : config) (hash : N -> N),
+  cfg_ok c ->
+  forall (mode : bool) (t : table) (k : N) (v : Z) (g : Z -> bool -> option (Z * bool)),
+  nothrow c = true ->
+  good c hash t ->
+  immediate c mode t ->
+  forall (t' : table) (r : exn + bool * list rv * (N * N)),
+  uprase_gen c hash mode t k v g = (t', r) ->
+  (forall v0 : Z,
+  holds (cur t) k v0 ->
+  exists b s : N,
+  r = inr (false, log_of g v0 false, (b, s)) /\
+  good c hash t' /\
+  lim_same t t' /\
+  immediate c mode t' /\
+  bhp (cur t') = bhp (cur t) /\
+  upd_holds (cur t) (cur t') k (final_of g v0 false) /\
+  (forall vf : Z,
+  final_of g v0 false = Some vf ->
+  exists e : entry, bget (cur t') b s = Some e /\ ekey e = k /\ eval e = vf)) /\
+  (~ key_in (cur t) k ->
+  tied_esc t' \/
+  (exists e : exn, r = inl e /\ exn_ok c true t t' e /\ evolves c hash t t' /\ immediate c mode t') \/
+  (exists b s : N,
+  r = inr (true, log_of g v true, (b, s)) /\
+  good c hash t' /\
+  lim_same t t' /\
+  immediate c mode t' /\
+  bhp (cur t) <= bhp (cur t') /\
+  upd_holds (cur t) (cur t') k (final_of g v true) /\
+  (forall vf : Z,
+  final_of g v true = Some vf ->
+  exists e : entry, bget (cur t') b s = Some e /\ ekey e = k /\ eval e = vf))).
+Proof. exact uprase_gen_good_tied. Qed.
+Print Assumptions C02_insert_family_immediate_regime_tied.
+
+Theorem C02_every_locked_table_operation_refines_the_map_tied :
+  forall (c : config) (hash : N -> N),
+  cfg_ok c ->
+  forall (fapply : fnk -> Z -> bool -> Z * bool) (w : world) (a : nat) (s : tslot)
+  (o : op) (w' : world) (r : out) (m : amap),
+  nothrow c = true ->
+  active s = true ->
+  locked_op o = true ->
+  good c hash (tb s) ->
+  rep c (tb s) m ->
+  lop_pre c (tb s) o ->
+  step_some c hash fapply w a s o = (w', r) -> tied_step w a s w' \/ lpost c hash w a s o w' r m.
+Proof. exact locked_mode_op_refines_tied. Qed.
+Print Assumptions C02_every_locked_table_operation_refines_the_map_tied.
+
+Theorem C02_hashpower_never_decreases_along_an_insertion :
+  forall (c : config) (hash : N -> N),
+  nothrow c = true ->
+  forall (fuel : nat) (mode : bool) (t : table) (k i1 i2 : N) (t' : table) (res : il_result),
+  cuckoo_insert_loop c hash (cuckoo_fast_double c hash) mode t k i1 i2 fuel = (t', res) ->
+  bhp (cur t) <= bhp (cur t').
+Proof. exact cuckoo_insert_loop_mono. Qed.
+Print Assumptions C02_hashpower_never_decreases_along_an_insertion.
+
+Theorem C02_model_outputs_accepted_by_the_oracle :
+  forall (c : config) (hash : N -> N),
+  cfg_ok c ->
+  forall (fapply : fnk -> Z -> bool -> Z * bool) (spb_ : N) (w : world) (a : nat)
+  (sl : tslot) (o : op) (w' : world) (r : out) (m : amap) (s : sst) (ts : stab)
+  (x y : bool),
+  spb c = spb_ ->
+  nothrow c = true ->
+  normal_op o = true ->
+  op_pre c (tb sl) o ->
+  reserve_fits c o ->
+  related c hash sl m s a ts ->
+  step_some c hash fapply w a sl o = (w', r) ->
+  tied_step w a sl w' \/ accepted_step c hash fapply spb_ w a sl o w' r s ts x y.
+Proof. exact model_outputs_accepted_tied. Qed.
+Print Assumptions C02_model_outputs_accepted_by_the_oracle.
+
+Theorem C02_whole_scripts_of_the_model_are_accepted :
+  forall (c : config) (hash : N -> N),
+  cfg_ok c ->
+  forall (fapply : fnk -> Z -> bool -> Z * bool) (spb_ : N),
+  spb c = spb_ ->
+  forall (ops : list op) (w : world) (a : nat) (sl : tslot) (m : amap) (s : sst) (ts : stab),
+  nothrow c = true ->
+  mhp (tb sl) <= 59 ->
+  Forall (op_side c (mhp (tb sl))) ops ->
+  related c hash sl m s a ts -> script_accepted c hash fapply spb_ w a sl s ops.
+Proof. exact script_accepted_from_initial. Qed.
+Print Assumptions C02_whole_scripts_of_the_model_are_accepted.
